@@ -173,3 +173,16 @@ func (d *Disjunct) ErrIsNil(v ssa.Value) bool {
 	isNil, known := d.IsNilKnown(v)
 	return known && isNil
 }
+
+// MinLen returns the greatest c <= max such that the path condition entails len(v) >= c.
+func (d *Disjunct) MinLen(v ssa.Value, max int) int {
+	l := d.Len(v)
+	if l == nil || l.Bad() {
+		return 0
+	}
+	c := 0
+	for c < max && d.it.entailsAll(d.d, []lin.Ineq{lin.GE(l, lin.Const(int64(c+1)))}) {
+		c++
+	}
+	return c
+}
